@@ -185,6 +185,11 @@ def _gen_options(rng, grid):
         ra = dict(ra or {})
         ra.setdefault("least_squares_params", {"max_nfev": 8})
         o["refine_args"] = ra
+        # refinement may be handed to worker processes (simulated pool): the number of workers is
+        # one more documented option, and frames with fewer candidates than workers (or none at
+        # all) are ordinary input
+        if rng.random() < 0.35:
+            o["num_processes"] = rng.choice([2, 2, 3, 4, "auto"])
     return o
 
 
@@ -232,8 +237,12 @@ def generate(streams: Streams, tier: str, index: int) -> dict:
             "tracking": {"method": rng.choice(["overlap", "distance"]), "grid": rng.random() < 0.5,
                          "max_dist": rng.choice([None, 1.0, 5.0])},
             "invalid": None}
-    if rng.random() < 0.06:
-        case["invalid"] = rng.choice(["modes_1d", "dim_mismatch"])
+    if rng.random() < 0.1:
+        case["invalid"] = rng.choice(["modes_1d", "dim_mismatch", "dim_mismatch"])
+        # which droplet is rendered on the run's grid: any class of any other dimension
+        case["invalid_droplet"] = {"dim": rng.choice([1, 2, 3]),
+                                   "cls": rng.choice(["SphericalDroplet", "DiffuseDroplet", "perturbed"]),
+                                   "via": rng.choice(["droplet", "droplet", "emulsion"])}
     # the stored frames are also analysed offline with worker processes (simulated pool)
     case["offline"] = {"workers": rng.choice([1, 2, 2, 3, 4, "auto"]), "auto_workers": rng.randint(1, 16),
                        "choices": [rng.randrange(8) for _ in range(4)]}
@@ -364,12 +373,24 @@ def execute(case: dict) -> Outcome:
                                f"{type(exc).__name__} instead of ValueError", {"kind": "modes_1d"}))
     elif inv == "dim_mismatch":
         g = scenes.make_grid(grid_spec)
-        other = 2 if g.dim != 2 else 3
-        d = droplets.SphericalDroplet([1.0] * other, 1.0)
+        idr = case.get("invalid_droplet") or {"dim": 2, "cls": "SphericalDroplet", "via": "droplet"}
+        other = idr["dim"] if idr["dim"] != g.dim else (2 if g.dim != 2 else 3)
+        if idr["cls"] == "perturbed" and other == 2:
+            d = droplets.droplets.PerturbedDroplet2D([1.0, 1.0], 1.0, 1.0, [0.125])
+        elif idr["cls"] == "perturbed" and other == 3:
+            d = droplets.droplets.PerturbedDroplet3D([1.0, 1.0, 1.0], 1.0, 1.0, [0.0, 0.125])
+        elif idr["cls"] == "SphericalDroplet":
+            d = droplets.SphericalDroplet([1.0] * other, 1.0)
+        else:
+            d = droplets.DiffuseDroplet([1.0] * other, 1.0, 1.0)
+        cells.append(("dim_mismatch", fam, g.dim, other, type(d).__name__, idr["via"]))
         try:
-            d.get_phase_field(g)
-            V.append(Violation("C09.O3", "rendering a droplet on a grid of another dimension was "
-                               "accepted", {"kind": "dim_mismatch"}))
+            if idr["via"] == "emulsion":
+                droplets.Emulsion([d]).get_phasefield(g)
+            else:
+                d.get_phase_field(g)
+            V.append(Violation("C09.O3", f"rendering a {other}D {type(d).__name__} on a {g.dim}D grid "
+                               f"({fam}) was accepted", {"kind": "dim_mismatch"}))
         except ValueError:
             cnt.inc("probe.invalid_rejected_dim_mismatch")
         except Exception as exc:
@@ -407,8 +428,19 @@ def execute(case: dict) -> Outcome:
             kw = {**kw, "modes": other_modes}
             cnt.inc("probe.second_call_other_modes")
         tag = case["frames"][fi].get("tag", "scene")
-        ok, em = guard("locate", lambda: locate_droplets(fld.copy(), **kw),
-                       {"modes": str(opts["modes"] > 0), "refine": str(opts["refine"])})
+        if kw.get("num_processes", 1) != 1:
+            from simkit import simexec
+
+            off0 = case.get("offline") or {"auto_workers": 3, "choices": [1, 0]}
+            with simexec.PoolScript(auto_workers=off0["auto_workers"], choices=off0["choices"],
+                                    counters=cnt):
+                ok, em = guard("locate", lambda: locate_droplets(fld.copy(), **kw),
+                               {"modes": str(opts["modes"] > 0), "refine": str(opts["refine"]),
+                                "workers": str(kw["num_processes"])})
+            cells.append(("locate_workers", fam, dim, tag, str(kw["num_processes"])))
+        else:
+            ok, em = guard("locate", lambda: locate_droplets(fld.copy(), **kw),
+                           {"modes": str(opts["modes"] > 0), "refine": str(opts["refine"])})
         cells.append(("locate", fam, dim, tag, opts["modes"] > 0, opts["refine"],
                       str(opts["threshold"]) if isinstance(opts["threshold"], str) else "num",
                       "interface_width" in opts))
@@ -574,8 +606,9 @@ def shrink(case: dict):
     for k, simple in (("refine", False), ("modes", 0), ("threshold", 0.5), ("minimal_radius", 0)):
         if o.get(k) != simple:
             yield {**case, "locate": {**o, k: simple}}
-    if "interface_width" in o:
-        yield {**case, "locate": {k: v for k, v in o.items() if k != "interface_width"}}
+    for kdrop in ("interface_width", "num_processes"):
+        if kdrop in o:
+            yield {**case, "locate": {k: v for k, v in o.items() if k != kdrop}}
     if "refine_args" in o and o["refine_args"] != {"least_squares_params": {"max_nfev": 8}}:
         yield {**case, "locate": {**o, "refine_args": {"least_squares_params": {"max_nfev": 8}}}}
     if case.get("invalid"):
